@@ -165,6 +165,11 @@ def find_mask_events(b, evs):
                     out.append(MaskEvent((sb, len(b.blocks[sb]["st"])), w.obj, "b1", Li,
                                          "if %s / BU < len { data[%s / BU] &= mask(%s %% BU) }" % (show(Li), show(Li), show(Li))))
                     w.is_mask = True
+        if not getattr(w, "is_mask", False):
+            # unguarded direct form `data[L / BU] &= mask(L % BU)`: the indexing is bounds-checked (it panics rather than
+            # skipping the truncation), so where it executes it is a truncation to L
+            out.append(MaskEvent(w.loc, w.obj, "b1", Li, "data[%s / BU] &= mask(%s %% BU)" % (show(Li), show(Li))))
+            w.is_mask = True
     for e in evs:
         if e.kind == "mcall" and e.name == "mod2n":
             e.is_mask = True
@@ -636,6 +641,22 @@ def check_k5_conjuncts(crate, b, kk, evs, writes, aggs, dstores, lens):
     return True, ""
 
 
+def _iter_bounded_by_used_words(index):
+    """the iterated storage is sliced (`data[..n]`, `data[a..n]`) or `take(n)`-ed with n derived from the length
+    (capacity_from_bit_len / int_len, possibly through min): the iterator cannot reach a word above the top word"""
+    def length_derived(e):
+        return mir.contains(e, lambda x: is_call(x, "capacity_from_bit_len") or is_call(x, "int_len"))
+    for x in walk(index):
+        if isinstance(x, tuple) and x and x[0] == "agg" and isinstance(x[1], str) and x[1].startswith("Range") and x[3]:
+            if x[1] in ("RangeTo", "RangeToInclusive") and length_derived(x[3][0]):
+                return True
+            if x[1] in ("Range", "RangeInclusive") and len(x[3]) == 2 and length_derived(x[3][1]):
+                return True
+        if is_call(x, "take") and len(x[3]) == 2 and length_derived(x[3][1]):
+            return True
+    return False
+
+
 def check_k1(crate, b, evs, writes, aggs, dstores, lens, masks):
     """after the last raw write on every path to Return there is a canonicalising event whose length
     argument is the length the object has at return"""
@@ -715,6 +736,8 @@ def check_k1(crate, b, evs, writes, aggs, dstores, lens, masks):
                         problems.append("the truncation %s clears only the word holding bit len, but the loop over %s writes every word: "
                                         "rhs bits landing in higher words stay in storage" % (ms[0].detail, show(src)))
                         break
+                elif w.index is not None and w.index[0] == "iter" and _iter_bounded_by_used_words(w.index):
+                    continue
                 elif w.index is not None and w.index[0] == "iter":
                     problems.append("the truncation %s clears only the word holding bit len, but every word is written through an iterator"
                                     % ms[0].detail)
@@ -790,7 +813,12 @@ def shrink_rule(crate):
                     if e.kind == "mcall" and e.name == "set" and len(e.args) == 3 and e.args[0] == l.obj \
                             and e.args[1] == v and show(e.args[2]).endswith("Zero") and b.loc_dominates(e.loc, l.loc):
                         ok = True
-                res.append((b, l, ok, "len -= 1 %s" % ("after set(len-1, Zero)" if ok else "WITHOUT clearing bit len-1 first")))
+                how = "after set(len-1, Zero)"
+                if not ok:
+                    post = _post_store_mask(b, l, masks)
+                    if post:
+                        ok, how = True, "then " + post
+                res.append((b, l, ok, "len -= 1 %s" % (how if ok else "WITHOUT clearing bit len-1 (no set(len-1, Zero) before, no truncation to the new length after)")))
                 continue
             # general: a canonicalising event at the new length dominates the store
             multiword = False
@@ -827,6 +855,17 @@ def shrink_rule(crate):
                        "(expected a loop writing 0 to words %s / BU + 1 .. cap(old length))" % (show(v), show(v)))
             res.append((b, l, ok, why))
     return res
+
+
+def _post_store_mask(b, l, masks):
+    """the length store is followed on every path to a return by a truncation to `obj.length` (the new value)"""
+    cur = ("field", l.obj, "length")
+    locs = [m.loc for m in masks if m.obj == l.obj and m.L == cur and not m.form.startswith("bad") and m.form != "b2"
+            and b.loc_dominates(l.loc, m.loc) and m.loc != l.loc]
+    if not locs:
+        return None
+    ok, _ = b.must_pass_to_return(l.loc, locs)
+    return "truncated to the new length on every path after the store" if ok else None
 
 
 def _dom_edges(b, blk):
